@@ -484,3 +484,6 @@ M("opc6-call-arg-3", "C02", LL, 'if code[offs : offs + 2] != bytes([op["CALL"], 
 M("opc6-get-awaitable-arg", "C02", LL, "sys.version_info >= (3, 11) and code[offs + 1] != 2", "sys.version_info >= (3, 11) and code[offs + 1] != 1", "OPC-6")
 M("opc6-get-awaitable-310", "C02", LL, "sys.version_info >= (3, 11) and code[offs + 1] != 2", "sys.version_info >= (3, 10) and code[offs + 1] != 2", "OPC-6")
 M("opc6-swap-dropped", "C02", LL, 'end == offs - 2 and code[offs] in (op["SWAP"], op["NOP"])', 'end == offs - 2 and code[offs] in (op["NOP"],)', ["OPC-6"], accept_analysis_error=True)
+M("opc8-fallthrough", "C01", LL, "            todo.append((offs + 2, stack))", "            todo.append((offs + 4, stack))", "OPC-8", accept_analysis_error=True)
+M("opc8-jmul-39", "C01", LL, "    jmul = 2 if sys.version_info >= (3, 10) else 1", "    jmul = 2 if sys.version_info >= (3, 9) else 1", "OPC-8")
+M("opc8-extarg-shift", "C01", LL, "            arg = (arg << 8) | code[offs + 1]", "            arg = (arg << 4) | code[offs + 1]", "OPC-8")
